@@ -549,7 +549,7 @@ def run_shapes(res, judged):
 
 def run(ctx):
     res = {"evaluations": 0, "nontrivial": set(), "violations": [], "disagreements": [], "distribution": {},
-           "streams": 7, "notes": []}
+           "streams": 8, "notes": []}
     dist = res["distribution"]
     rng = ctx.rng
     # E: marker boundary cases (sniffer-level, alarm level)
@@ -589,6 +589,8 @@ def run(ctx):
     docs = [d for _, d in judged]
     # G: the writer models that start from the text nodes, against the real writers (request 2003)
     c20_nodes.run_nodes(ctx, res, sets)
+    # H: "that reader reads the document" on the read-back domain (request 2004)
+    c20_nodes.run_read(ctx, res, sets)
     # F: writer outputs as instances of the own-output theorems
     run_shapes(res, judged)
     # B: complete documents + truncations
@@ -626,6 +628,10 @@ def run(ctx):
                     "writer models FROM THE TEXT NODES (model/OwnWrite.v): every SRT / MicroDVD document of a caption set whose "
                     "caption texts carry no earlier format's marker, and every WebVTT document whatever the text, is "
                     "detected as its own format (C20_own_nodes_srt / _mdvd / _vtt)",
+                    "SCC from the text nodes: every document the SCC writer model returns is detected as SCC (body characters "
+                    "proved over the complete generated tables)",
+                    "MicroDVD read-back: on the domain excluding the two recorded MicroDVD findings the reader model returns one "
+                    "caption per written cue with the written frames' instants (C20_own_read_mdvd)",
                     "DFXP / SAMI skeletons: a document containing </tt> is DFXP; a document opening with <sami and "
                     "carrying neither </tt> nor WEBVTT is SAMI"],
         "correspondence_only": ["detect_format iterates SUPPORTED_READERS and calls reader().detect (streams A-C via the oracle)",
@@ -656,6 +662,10 @@ def replay(ctx, rec):
             rd = impl.call(lambda: R().read(doc), timeout=120)
             good = isinstance(rd, Ok)
         return (not good), repr(det)
+    if rec.get("replay") == "own-read":
+        rd = c20_nodes.real_read(rec["fmt"], rec["document"])
+        want = [tuple(e) for e in rec["expected"]]
+        return (not (isinstance(rd, Ok) and rd.v == want)), repr(rd)
     if rec.get("replay") == "own-detect":
         doc = rec["document"]
         R = dict((n, r) for n, _, r in WRITERS)[rec["fmt"]]
